@@ -1006,6 +1006,20 @@ theorem C11_first_pass_machine (f : Filter) (groups : List Elem) (gids : List St
       (filterTops f groups (gids, [])).map fun r => { gids := r.1, hids := r.2 } :=
   Sax.f_groups f groups gids h
 
+/-- **the whole document, in the order of the file**: species sections and the groups section as the calls arrive, every
+    geneRef resolved against the declarations read so far -- the parser object ends in the analysis the recursive `buildHam`
+    returns (filtered or not), or fails with the same exception -/
+theorem C01_document_machine_is_load (T : STree) (nm : Naming) (inp : Input) (keep : String → Bool) (flt : HogFilter) :
+    (Sax.drun T nm keep flt (Sax.spEvents inp.species ++ (Sax.eventsL inp.groups).map .grp) {}).map (Sax.DS.ham T nm) =
+      buildHam T nm inp keep flt :=
+  Sax.doc_machine_is_load T nm inp keep flt
+
+/-- ... and over the whole document: the <gene> elements select gene ids as they are read, then the groups section -/
+theorem C11_first_pass_document (f : Filter) (inp : Input) (h : Sax.noTopRefL inp.groups = true) :
+    Sax.fdrun f (Sax.spEvents inp.species ++ (Sax.eventsL inp.groups).map .grp) { gids := [] } =
+      (filterTops f inp.groups (filterGenes f inp.species, [])).map fun r => { gids := r.1, hids := r.2 } :=
+  Sax.f_document f inp h
+
 /-- wherever in the stream the fault occurs: once a call raises, the run has failed with that exception, whatever follows
     (nothing after the faulty call is read, no state is returned) -/
 theorem C20_stream_stops_at_fault (env : Env) (flt : HogFilter) (before after : List Sax.Ev) (m : Sax.MS) (e : Err)
